@@ -102,6 +102,9 @@ def do_replay(pid, path):
     return 0
 
 
+TABLES_MODULE = "PsecModel.Lemmas.TablesAgree"
+
+
 def main():
     ap = argparse.ArgumentParser()
     ap.add_argument("pid")
@@ -139,11 +142,34 @@ def main():
             print("INFRA: lake build failed\n" + out[-3000:])
             return 2
 
+    # 1a. constant tables regenerated from the source (harness/tables.py) and the module that proves the model agrees with them;
+    # built apart from the property's own modules, so that a changed table breaks these obligations and nothing else
+    table_obl = list(getattr(mod, "TABLE_OBLIGATIONS", []))
+    table_err = None
+    if table_obl:
+        import tables
+        _, terr = tables.run(core.REPO, os.path.join(core.LEAN_DIR, "PsecModel", "Generated", "Tables.lean"))
+        tok, tout = core.lake_build([TABLES_MODULE])
+        if terr:
+            table_err = "harness/tables.py could not read the tables from the source: " + terr
+        elif not tok:
+            errs = [l for l in tout.splitlines() if l.startswith("error:")]
+            table_err = "does not check against the tables regenerated from the source: " + " | ".join(errs)[:500]
+
     # 2. obligations
     theorems = list(mod.OBLIGATIONS)
     aud = {"theorems": {}, "checker_cmd": ""}
     if not build_failed:
         aud = core.audit(pid, theorems, [getattr(mod, "AUDIT_IMPORT", props_mod if has_props else "PsecModel.Exec")] + list(getattr(mod, "EXTRA_MODULES", [])))
+    if table_obl:
+        if table_err:
+            for t in table_obl:
+                aud["theorems"][t] = {"ok": False, "axioms": None, "error": table_err}
+        else:
+            aud2 = core.audit(pid + "_tables", table_obl, [TABLES_MODULE])
+            aud["theorems"].update(aud2["theorems"])
+            aud["checker_cmd"] = (aud.get("checker_cmd") or "") + " ; python3 harness/tables.py && " + aud2["checker_cmd"]
+        theorems += table_obl
     hits = core.scan_sources()
     discharged = sum(1 for t in theorems if aud["theorems"].get(t, {}).get("ok"))
     for t in theorems:
@@ -154,7 +180,7 @@ def main():
         broken.append("forbidden construct in Lean sources: " + h)
     lc = None
     if a.tier == "thorough" and not build_failed and has_props:
-        lc = core.leanchecker([props_mod] + extra_mods)
+        lc = core.leanchecker([props_mod] + extra_mods + ([TABLES_MODULE] if table_obl and not table_err else []))
         if lc["rc"] != 0:
             broken.append("leanchecker rejected the compiled modules of " + props_mod + ": " + lc["tail"][-400:])
 
